@@ -99,6 +99,26 @@ CLAIMS['C18'] = dict(
     note='Trusted: clang 14 front end/CFG; classification table in rules/reset.py.',
     ref='5 (C18), 4 (A5, A2)')
 
+CLAIMS['C10'] = dict(
+    technique='who-may-write shape rules, pairing (push/pop) and dominance queries on the CFG, reset completeness',
+    text=('Decides: counters, phase offsets/stacks and the active segment are written only by the core bookkeeping '
+          'modules; PHASE saves and pushes on the active segment\'s stack before replacing the offset and DEPHASE '
+          'restores/pops from the same stack; the state SAVE stores is what RESTORE reads back; labels are defined from '
+          'the phased counter; ALIGN\'s divisor is non-zero; the bookkeeping state is reset per pass; WriteCode checks '
+          'the segment limit before advancing and advances on every emitting path. Counter arithmetic for concrete '
+          'statement sequences is not decided.'),
+    note='Trusted: clang 14 front end/CFG.',
+    ref='5 (C10)')
+CLAIMS['C13'] = dict(
+    technique='guarded-by/dominance queries with value flow through copies and callers, pairing on paths',
+    text=('Decides: names are case-folded before every keyed search/insert in the symbol, macro and structure trees and '
+          'the FORWARD/PUBLIC/GLOBAL lists; the macro-local lookup precedes the section/global one at every resolution '
+          'site; the EQU/SET redefinition errors are raised exactly under the documented tests and reject the '
+          'definition; global-scope escapes are balanced on all paths. Section-tree resolution results and '
+          'temporary-symbol binding are not decided.'),
+    note='Trusted: clang 14 front end/CFG.',
+    ref='5 (C13)')
+
 NA_REASONS = {}
 
 
